@@ -1,6 +1,7 @@
 package main
 
 import (
+	"go/constant"
 	"fmt"
 	"go/token"
 	"go/types"
@@ -238,6 +239,10 @@ func propC11(c *Ctx) {
 
 	c.Rule("R11.5", "decoder rows are cleared before reuse (a column never keeps the previous log's value)", 2)
 	checkDecoderRowsCleared(c, "R11.5")
+	c.Rule("R11.11", "an element offset of the ABI data counts from where the head section starts (the base added to it is the head position's start value on the same path)", 1)
+	checkOffsetBase(c, "R11.11")
+	c.Rule("R11.10", "the number stored for an integer input is the decoded number: no unsigned-to-signed conversion of the same width in the value mapping without a bound test", 1)
+	checkValueMappingKeepsMagnitude(c, "R11.10")
 	c.Rule("R11.9", "a reply is decoded into a value of its own: a request issued from a loop decodes into a destination allocated or wholly reset in that iteration (members copied out of the previous reply keep their values)", 1)
 	checkDecodeTargetsFresh(c, "R11.9")
 	c.Rule("R11.6", "every log is attached to the block and transaction named by its own blockNumber / transactionIndex (block_num, block_hash, tx_hash of a row are those of the log's own block)", 2)
@@ -1114,4 +1119,235 @@ func checkDecodeTargetsFresh(c *Ctx, rule string) {
 	if n == 0 {
 		c.OK(rule, "do/no-request-in-a-loop", do.Pos(), "no request is issued from inside a loop")
 	}
+}
+
+// checkValueMappingKeepsMagnitude (R11.10): what the row builder hands to the database for an integer input is
+// the decoded number itself.  In dbtype and in the Value() methods of package dig an unsigned 64-bit quantity
+// is never converted to a signed integer type unless the very value was compared with a bound that fits
+// (a "fast path" `int64(abs.Uint64())` behind IsUint64() wraps every magnitude from 2^63 on).
+func checkValueMappingKeepsMagnitude(c *Ctx, rule string) {
+	w := c.W
+	var fns []*ssa.Function
+	fns = append(fns, w.Fn("dig", "dbtype"))
+	for _, fn := range w.RepoFuncs() {
+		if fn.Pkg == nil || fn.Pkg != fns[0].Pkg || fn.Signature.Recv() == nil || fn.Name() != "Value" {
+			continue
+		}
+		fns = append(fns, fn)
+	}
+	sortFuncs(fns[1:])
+	n := 0
+	for _, fn := range fns {
+		NewRegion(fn).AllInstrs(func(in ssa.Instruction) {
+			cv, ok := in.(*ssa.Convert)
+			if !ok {
+				return
+			}
+			from, okF := cv.X.Type().Underlying().(*types.Basic)
+			to, okT := cv.Type().Underlying().(*types.Basic)
+			if !okF || !okT || from.Info()&types.IsUnsigned == 0 || to.Info()&types.IsInteger == 0 || to.Info()&types.IsUnsigned != 0 {
+				return
+			}
+			if sizeofBasic(from) < sizeofBasic(to) {
+				return // widening: uint32 → int64
+			}
+			if _, isK := cv.X.(*ssa.Const); isK {
+				return
+			}
+			n++
+			// guarded by x <= K / x < K with K within the signed range, on this very value
+			guarded := false
+			for _, ref := range *cv.X.Referrers() {
+				b, isB := ref.(*ssa.BinOp)
+				if !isB || b.X != cv.X {
+					continue
+				}
+				k, isK := b.Y.(*ssa.Const)
+				if !isK || k.Value == nil {
+					continue
+				}
+				lim, exact := constant.Uint64Val(constant.ToInt(k.Value))
+				if !exact {
+					continue
+				}
+				t, f := boolEdges(b)
+				var okEdges []Edge
+				switch {
+				case b.Op == token.LEQ && lim <= 1<<63-1, b.Op == token.LSS && lim <= 1<<63:
+					okEdges = t
+				case b.Op == token.GTR && lim <= 1<<63-1, b.Op == token.GEQ && lim <= 1<<63:
+					okEdges = f
+				}
+				if len(okEdges) > 0 && guardedByEdges(cv.Parent(), cv, okEdges) {
+					guarded = true
+				}
+			}
+			c.Check(rule, fmt.Sprintf("%s/unsigned-to-signed#%d-bounded", fn.Name(), n), cv.Pos(), guarded,
+				"an unsigned value is converted to a signed type of the same width only after it was compared with a bound that fits; otherwise magnitudes from 2^63 on are stored as negative numbers")
+		})
+	}
+	if n == 0 {
+		c.OK(rule, "value-mapping/no-unsigned-to-signed-conversion", fns[0].Pos(), fmt.Sprintf("no conversion of an unsigned quantity to a signed type of the same width in dbtype and the %d Value() methods of package dig", len(fns)-1))
+	}
+}
+
+func sizeofBasic(b *types.Basic) int {
+	switch b.Kind() {
+	case types.Int8, types.Uint8:
+		return 1
+	case types.Int16, types.Uint16:
+		return 2
+	case types.Int32, types.Uint32:
+		return 4
+	}
+	return 8
+}
+
+// checkOffsetBase (R11.11): in the ABI decoder an element offset counts from the start of the head section.
+// The loop that walks an array's (or tuple's) heads starts its position at that point – 0, or 32 when a length
+// word was read first – and the base an element offset is added to must be the same value on the same path.
+// (A constant 32 as the base reads fixed-size arrays of dynamic elements 32 bytes too far.)
+func checkOffsetBase(c *Ctx, rule string) {
+	scan, _, _ := scanAnchor(c.W)
+	isDecoded := func(v ssa.Value) bool {
+		v = stripNum(v)
+		call, ok := v.(*ssa.Call)
+		return ok && strings.HasSuffix(calleeName(call), "/bint.Decode")
+	}
+	n := 0
+	for _, h := range scan.Blocks {
+		lp := naturalLoop(h)
+		if lp == nil {
+			continue
+		}
+		// the position variable of this loop: a header phi that is the low bound of a slice in the loop
+		var pos []*ssa.Phi
+		for _, in := range h.Instrs {
+			ph, ok := in.(*ssa.Phi)
+			if !ok || !isIntType(ph.Type()) {
+				continue
+			}
+			used := false
+			for _, ref := range *ph.Referrers() {
+				if sl, isSl := ref.(*ssa.Slice); isSl && lp[sl.Block()] && sl.Low == ssa.Value(ph) {
+					used = true
+				}
+			}
+			if used {
+				pos = append(pos, ph)
+			}
+		}
+		if len(pos) == 0 {
+			continue
+		}
+		allInstrs(scan, func(in ssa.Instruction) {
+			sl, ok := in.(*ssa.Slice)
+			if !ok || !lp[sl.Block()] || sl.Low == nil || loopHeaderOf(sl) != h {
+				return
+			}
+			var base ssa.Value
+			low := stripNum(sl.Low)
+			switch {
+			case isDecoded(low):
+			default:
+				b, isB := low.(*ssa.BinOp)
+				if !isB || b.Op != token.ADD {
+					return
+				}
+				switch {
+				case isDecoded(b.Y):
+					base = b.X
+				case isDecoded(b.X):
+					base = b.Y
+				default:
+					return
+				}
+			}
+			n++
+			key := fmt.Sprintf("scan/offset#%d-counts-from-the-head-start", n)
+			// initial value(s) of the position
+			verdict, detail := true, "the base an element offset is added to is the value the head position starts with"
+			for _, ph := range pos {
+				for i, e := range ph.Edges {
+					if lp[h.Preds[i]] {
+						continue // back edge
+					}
+					okPair, decided := sameStart(base, e)
+					if !decided {
+						c.OK(rule, key, sl.Pos(), "the offset base and the start of the head position are not written as constants or one variable: not decided")
+						return
+					}
+					if !okPair {
+						verdict = false
+						detail = "the base an element offset is added to differs from where the head position starts on some path (offsets count from the start of the heads: 0, or 32 only after a length word)"
+					}
+				}
+			}
+			c.Check(rule, key, sl.Pos(), verdict, detail)
+		})
+	}
+	if n == 0 {
+		c.OK(rule, "scan/no-offset-slices", scan.Pos(), "no slice of the data starts at a decoded offset inside a head loop")
+	}
+}
+
+// sameStart: base (nil = 0) and the position's initial value agree on every path: the same value, equal
+// constants, or phis of the same block with pairwise equal constant edges
+func sameStart(base, init ssa.Value) (equal, decided bool) {
+	konst := func(v ssa.Value) (int64, bool) {
+		if v == nil {
+			return 0, true
+		}
+		return constInt(stripNum(v))
+	}
+	if base != nil && stripNum(base) == stripNum(init) {
+		return true, true
+	}
+	kb, okb := konst(base)
+	ki, oki := konst(init)
+	if okb && oki {
+		return kb == ki, true
+	}
+	pi, isPI := stripNum(init).(*ssa.Phi)
+	if okb && isPI {
+		for _, e := range pi.Edges {
+			k, ok := konst(e)
+			if !ok {
+				return false, false
+			}
+			if k != kb {
+				return false, true
+			}
+		}
+		return true, true
+	}
+	if base != nil {
+		pb, isPB := stripNum(base).(*ssa.Phi)
+		if isPB && isPI && pb.Block() == pi.Block() {
+			for i := range pb.Edges {
+				a, ok1 := konst(pb.Edges[i])
+				b, ok2 := konst(pi.Edges[i])
+				if !ok1 || !ok2 {
+					return false, false
+				}
+				if a != b {
+					return false, true
+				}
+			}
+			return true, true
+		}
+		if isPB && oki {
+			for _, e := range pb.Edges {
+				k, ok := konst(e)
+				if !ok {
+					return false, false
+				}
+				if k != ki {
+					return false, true
+				}
+			}
+			return true, true
+		}
+	}
+	return false, false
 }
